@@ -107,3 +107,17 @@ func (c *Conn) SendCBCPaddingOnlyRecord(nblocks int) error {
 	_, err := c.write(rec)
 	return err
 }
+
+// SendUnprotectedRecord writes a record header of the given type and the payload bytes to the
+// transport as they are, whatever keys are in force (what any on-path party can do as well).
+func (c *Conn) SendUnprotectedRecord(typ uint8, payload []byte) error {
+	c.out.Lock()
+	defer c.out.Unlock()
+	vers := c.vers
+	if vers == VersionTLS13 {
+		vers = VersionTLS12
+	}
+	rec := append([]byte{typ, byte(vers >> 8), byte(vers), byte(len(payload) >> 8), byte(len(payload))}, payload...)
+	_, err := c.write(rec)
+	return err
+}
